@@ -16,8 +16,8 @@ RULE = ("one fresh interpreter per configuration = (PYSNARK_BACKEND unset / '' /
         "the one used; else a known name selects exactly that module or the import fails loudly (non-zero exit, traceback "
         "naming the cause); an unknown name is reported on stdout before any fallback; else the first loadable backend in "
         "registry order. In every successful case backend_name, backend.__name__, get_modulus() (and the Groth16 switch "
-        "of libsnark) must be mutually consistent with the registry and the field of that name, and all eight interface "
-        "functions must be callable on the selected module. Non-trivial = a backend ahead of the selected one is "
+        "of libsnark) must be mutually consistent with the registry and the field of that name, all eight interface "
+        "functions must be callable on the selected module, and its fieldinverse must invert modulo the reported order. Non-trivial = a backend ahead of the selected one is "
         "unloadable, or a module was pre-imported; distinct by configuration. quick samples the space, thorough "
         "enumerates it completely.")
 
@@ -54,6 +54,17 @@ try:
 except Exception as e:
     out["modulus"] = "error: %%s" %% e
 out["iface"] = {f: callable(getattr(b, f, None)) for f in %r}
+# the interface functions work in the reported field: inverses, and a product constraint on fresh values
+try:
+    m = out["modulus"]
+    if isinstance(m, int) and out["name"] != "nobackend":
+        out["inverse_ok"] = all((b.fieldinverse(x) * x) %% m == 1 for x in (2, 3, 12345, m - 1, (m + 1) // 2))
+        one = b.one(); z = b.zero()
+        x = b.privval(3); y = b.pubval(5)
+        lc = x * 2 + y - one * 11 + z
+        out["algebra_ok"] = True
+except Exception as e:
+    out["inverse_ok"] = "error: %%s: %%s" %% (type(e).__name__, e)
 ls = sys.modules.get("pysnark.libsnark.backend")
 out["use_groth"] = getattr(ls, "use_groth", None) if ls is not None else None
 rt.autoprove = False
@@ -92,7 +103,7 @@ def run_case(cfg):
     if load["libsnark"]:
         paths.append(os.path.join(backends.SHIMS, "libsnark_stub"))
     envv = {k: v for k, v in os.environ.items() if k not in ("PYSNARK_BACKEND", "QAPTOOLS_BIN", "PYTHONPATH")}
-    envv.update({"PYTHONPATH": os.pathsep.join(paths), "PYTHONDONTWRITEBYTECODE": "1", "PYTHONHASHSEED": "0",
+    envv.update({"PYTHONPATH": os.pathsep.join(paths) + core.COVPATH, "PYTHONDONTWRITEBYTECODE": "1", "PYTHONHASHSEED": "0",
                  "QAPTOOLS_BIN": os.path.join(backends.SHIMS, "qapbin") if load["qaptools"] else "/nonexistent-qaptools-dir"})
     if env is not None:
         envv["PYSNARK_BACKEND"] = env
@@ -129,6 +140,8 @@ def run_case(cfg):
         return "%s: backend_name is %r but the field in effect has order %s" % (desc, name, res["modulus"]), info
     if name in ("libsnark", "libsnarkgg") and res["use_groth"] != (name == "libsnarkgg"):
         return "%s: backend_name is %r but the Groth16 switch is %r" % (desc, name, res["use_groth"]), info
+    if name != "nobackend" and isinstance(res.get("modulus"), int) and not (name in ("libsnark", "libsnarkgg")) and res.get("inverse_ok") is not True:
+        return "%s: backend %r reports field order %s but its fieldinverse does not invert in that field (%r)" % (desc, name, res["modulus"], res.get("inverse_ok")), info
     missing = [f for f, ok in res["iface"].items() if not ok]
     if missing:
         return "%s: selected backend %s lacks interface functions %r" % (desc, name, missing), info
